@@ -32,7 +32,8 @@ RULE = (
 )
 ASSUMPTIONS = [
     "the model encodes the semantics of the interface docstrings and of the status-code names; where neither decides "
-    "(missing parent directory: raise or refusal code; source of a successful replace; size / read of a directory) the "
+    "(missing parent directory for create_directory / rename: raise or refusal code - create_file always answers with the "
+    "refusal code; source of a successful replace; size / read of a directory) the "
     "model accepts either and re-synchronises",
     "an operation hit by an injected OSError may raise it or return a refusal code of its own family, never a success "
     "code, and must leave the tree unchanged (recursive directory removal may have removed part of its own subtree)",
@@ -248,8 +249,9 @@ def _judge(m, name, p1, p2, rec_flag, data, off, rl, ret, exc, fired, before, re
         if m.exists(p1):
             want_ret = F.CREATE_NOT_ALLOWED
         elif not m.parent_ok(p1):
+            # create_file documents that it answers with the refusal code (it never raises for a target that
+            # cannot be created: missing parent, parent is a regular file)
             want_ret = F.CREATE_NOT_ALLOWED
-            loose = True
         else:
             want_ret = F.SUCCESS
             new[p1] = b""
